@@ -22,13 +22,8 @@ func forEachEngineProgram(r *harness.Run, plans []famPlan, c03MaxN int, f func(w
 	})
 	completed := 0
 	for n := 1; n <= c03MaxN && !r.Expired(); n++ {
-		nb := c03BodiesLoop
-		if n >= 6 {
-			nb = 5
-		}
-		if n == 5 {
-			nb = 8
-		}
+		alphabet := c03Alphabet(n)
+		nb := len(alphabet)
 		pow := uint64(1)
 		for i := 0; i < n; i++ {
 			pow *= uint64(nb)
@@ -44,7 +39,7 @@ func forEachEngineProgram(r *harness.Run, plans []famPlan, c03MaxN int, f func(w
 			x /= uint64(n + 1)
 			bodies := make([]int, n)
 			for i := range bodies {
-				bodies[i] = int(x % uint64(nb))
+				bodies[i] = alphabet[x%uint64(nb)]
 				x /= uint64(nb)
 				if bodies[i] == 9 && !c03InLoop(ctx) {
 					return
